@@ -106,6 +106,8 @@ type tr struct {
 	lines []string
 	fds   []int
 	tmp   []string
+	rem   map[string]int
+	nextID int
 }
 
 func (t *tr) logf(f string, args ...any) { t.lines = append(t.lines, fmt.Sprintf(f, args...)) }
